@@ -214,6 +214,11 @@ def judge(hdr, ops, tree, config, rejections, stats):
                     if diff & ~allowed:
                         reject('veto-resumable', 'no round was approved, yet resumable marks changed outside scheduled regions: R %s -> %s'
                                % (before.get('R'), op.snap.get('R')), idx)
+                    elif diff and any(any(g[5] for g in r) and any(t[1] == 'H' for t in r[0][3]) for r in rounds):
+                        # strict reading of "resumable stays as it was": a `schedule` request of a round that a guard
+                        # CANCELLED still moved the resumable mark (registry.restore() does not cover compoResumable)
+                        reject('veto-schedule', 'a guard cancelled the round, yet its schedule request(s) moved resumable marks: R %s -> %s'
+                               % (before.get('R'), op.snap.get('R')), idx)
             # every lifecycle callback was preceded by its guard
             xg = set(g[1] for g in guards if g[2] == 'exitGuard')
             eg = set(g[1] for g in guards if g[2] == 'entryGuard')
